@@ -328,6 +328,7 @@ class Program(object):
         self.globals = {}
         self.syms = {}        # id -> sym (any TU; prefers repo definition)
         self.by_q = {}
+        self.enums = {}
         for kind, src, out in paths:
             with open(out) as fh:
                 tu = json.load(fh)
@@ -353,6 +354,9 @@ class Program(object):
                 if r['name'] not in self.records:
                     r['_tu'] = tu
                     self.records[r['name']] = r
+            for e in tu.get('enums', []):
+                self.enums.setdefault(e['q'], {'items': dict((n, v) for n, v in e['items']), 'order': [n for n, v in e['items']],
+                                               'file': tu['files'][e['file']], 'line': e['line']})
             for g in tu['globals']:
                 g['_tu'] = tu
                 key = (tu['files'][g['file']], g['line'], g['q'], tu['types'][g['t']])
